@@ -8,23 +8,27 @@
 EXTENDS Naturals, Integers, Sequences, FiniteSets, TLC, AutomatonData
 
 DIdx(x) == x + 2                                       \* depth -1..MaxD -> index 1..MaxD+2
-Out(k, s) == { t \in ATrans[k] : t[1] = s }
-PredsAt(k, s) == { t[2] : t \in Out(k, s) }
+AllOut(k, s) == { t \in ATrans[k] : t[1] = s }
+(* Pattern.consume: while a predicate on an outgoing transition is open (inside its group), only the open *)
+(* predicates are consulted - every item belongs to the group, whatever else could match it              *)
+OpenOut(k, s, dd) == { t \in AllOut(k, s) : AOpen[k][t[2]][DIdx(dd[t[2]])] }
+Out(k, s, dd) == IF OpenOut(k, s, dd) # {} THEN OpenOut(k, s, dd) ELSE AllOut(k, s)
+PredsAt(k, s, dd) == { t[2] : t \in Out(k, s, dd) }
 Res(k, p, dd, c) == AAcc[k][p][DIdx(dd[p])][c]           \* <<accepts, depth'>>
-EnabledSet(k, s, dd, c) == { t \in Out(k, s) : Res(k, t[2], dd, c)[1] }
+EnabledSet(k, s, dd, c) == { t \in Out(k, s, dd) : Res(k, t[2], dd, c)[1] }
 Cap(x) == IF x > MaxD THEN MaxD ELSE IF x < -1 THEN -1 ELSE x
 Depth0(k) == [p \in 1..ANPreds[k] |-> 0]
 
 (* successor depth vectors (a set: non-deterministic only when leaving the saturated value) *)
 NextDs(k, s, dd, c) ==
   LET base == [p \in 1..ANPreds[k] |->
-                 IF p \in PredsAt(k, s) /\ p \in AStateful[k] THEN Cap(Res(k, p, dd, c)[2]) ELSE dd[p]]
-      sat  == { p \in PredsAt(k, s) \cap AStateful[k] : dd[p] = MaxD /\ base[p] = MaxD - 1 }
+                 IF p \in PredsAt(k, s, dd) /\ p \in AStateful[k] THEN Cap(Res(k, p, dd, c)[2]) ELSE dd[p]]
+      sat  == { p \in PredsAt(k, s, dd) \cap AStateful[k] : dd[p] = MaxD /\ base[p] = MaxD - 1 }
   IN  { [p \in 1..ANPreds[k] |-> IF p \in T THEN MaxD ELSE base[p]] : T \in SUBSET sat }
 (* exact successor when no counter is saturated (used by the search reference below) *)
 NextD(k, s, dd, c) ==
   [p \in 1..ANPreds[k] |->
-     IF p \in PredsAt(k, s) /\ p \in AStateful[k] THEN Cap(Res(k, p, dd, c)[2]) ELSE dd[p]]
+     IF p \in PredsAt(k, s, dd) /\ p \in AStateful[k] THEN Cap(Res(k, p, dd, c)[2]) ELSE dd[p]]
 
 (***************************************************************************)
 (* Search over token-class sequences with the extracted automata (C14,     *)
